@@ -16,6 +16,7 @@ require (
 	deps.dev/util/pypi v0.0.0-20250307021655-d811e36f9cad
 	deps.dev/util/resolve v0.0.0-00010101000000-000000000000
 	deps.dev/util/semver v0.0.0-20241230231135-52b7655a522f
+	golang.org/x/mod v0.22.0
 	golang.org/x/tools v0.29.0
 	google.golang.org/genproto v0.0.0-20230410155749-daa745c078e1
 	google.golang.org/grpc v1.71.1
@@ -23,7 +24,6 @@ require (
 )
 
 require (
-	golang.org/x/mod v0.22.0 // indirect
 	golang.org/x/net v0.38.0 // indirect
 	golang.org/x/sync v0.12.0 // indirect
 	golang.org/x/sys v0.31.0 // indirect
